@@ -8,7 +8,7 @@
      show o h w S                                      the screen a naive painter leaves for S on a blank terminal
      same_display a b                                  same cells (character, face), same placements, no error
      spec_run                                          "after every Frame the screen displays show(drawn surface)"
-     good_surface = in_domain /\ overlap_free          the domain of the property minus the known class Overlap
+     good_surface = in_domain /\ no_image_overlap      the domain of the property minus the known classes OverlapImages, OverlapWideImage
    Assumption on the oracle ([oracle_ok]): a space is one column wide, a blank in the default face is
    what an untouched terminal cell shows, and the faces the renderer erases with EraseChars
    ([erasable]) are faces whose erased cells look like printed spaces. *)
@@ -89,8 +89,9 @@ Theorem C01_clear_then_frame : forall o h w st scr,
   sgrid scr' = sgrid (show o h w (front st)) /\ err scr' = false.
 Proof. exact clear_then_frame. Qed.
 
-(* known classes OverlapImages / OverlapWideImage / OverlapWide: with two multi-cell objects on a
-   common cell the statement is false on the faithful model; one witness per sub-class *)
+(* known classes OverlapImages / OverlapWideImage: with an image on a cell that another image or a
+   wide character occupies the statement is false on the faithful model; one witness per sub-class.
+   (Wide characters hiding one another are inside the theorems.) *)
 Definition chr (f c : N) : cell := mkcell f (KChar c).
 Definition img (f i : N) : cell := mkcell f (KImg i).
 Definition gly (f g : N) : cell := mkcell f (KGlyph g).
@@ -114,9 +115,6 @@ Definition overlap_images_ops : list op :=
 Definition overlap_wide_image_ops : list op :=
   [Draw [[chr 0%N 19990%N; img 1%N 0%N; cell_default]]; Frame;
    Draw [[chr 0%N 19990%N; cell_default; cell_default]]; Frame].
-(* two wide characters in adjacent cells and a narrow one behind them: one frame, x is never painted *)
-Definition overlap_wide_ops : list op :=
-  [Draw [[chr 0%N 19990%N; chr 0%N 30028%N; chr 0%N 120%N]]; Frame].
 
 Ltac refute :=
   split; [repeat split|]; split;
@@ -127,8 +125,6 @@ Ltac refute :=
 Theorem C01_overlap_images_refuted : refuted_by overlap_images_ops.
 Proof. refute. Qed.
 Theorem C01_overlap_wide_image_refuted : refuted_by overlap_wide_image_ops.
-Proof. refute. Qed.
-Theorem C01_overlap_wide_refuted : refuted_by overlap_wide_ops.
 Proof. refute. Qed.
 
 Check C01_history : forall o h w ops,
@@ -144,7 +140,8 @@ Check C01_forced : forall o h w s scr,
 
 (* non-vacuity: a history with a wide character, a cell behind it, an image, a cell under the
    image, a glyph, a blank run longer than 4 (erased) and one in an underlining face (face 4, printed
-   as spaces), Clear (also between Draw and Frame), Renew, SkipFrame and a Resize to a garbage screen is in the domain, and the
+   as spaces), Clear (also between Draw and Frame), Renew, SkipFrame, a Resize to a garbage screen and a wide
+   character hidden behind another one (then uncovered) is in the domain, and the
    renderer issues commands for it (wide = U+4E16, width 2; image 1 is 2x3 cells) *)
 Definition ex_oracle : oracle :=
   mkoracle (fun ch => if N.eqb ch 19990%N then 2 else 1)
@@ -161,11 +158,14 @@ Definition ex_s3 : grid cell :=
    [cell_default; cell_default; cell_default; cell_default; cell_default; cell_default; cell_default]].
 Definition ex_ops : list op :=
   [Draw ex_s1; Frame; Draw ex_s2; Frame; Clear; Draw ex_s1; SkipFrame; Frame; Draw ex_s1; Frame; Renew; Draw ex_s2; Frame; Draw ex_s3; Clear; Frame;
-   Resize 1 2 [[(WR, 3%N); (Orphan, 1%N)]]; Draw [[chr 1%N 19990%N; chr 0%N 97%N]]; Frame].
+   Resize 1 2 [[(WR, 3%N); (Orphan, 1%N)]]; Draw [[chr 1%N 19990%N; chr 0%N 97%N]]; Frame;
+   Resize 1 4 [[(Blank, 0%N); (Blank, 0%N); (Blank, 0%N); (Blank, 0%N)]];
+   Draw [[chr 0%N 19990%N; chr 1%N 19990%N; chr 0%N 120%N; chr 0%N 121%N]]; Frame;
+   Draw [[chr 0%N 97%N; chr 1%N 19990%N; chr 0%N 120%N; chr 0%N 121%N]]; Frame].
 
 Example C01_history_nonvacuous :
   oracle_ok ex_oracle /\ good_ops ex_oracle 2 7 ex_ops
-  /\ length (concat (rrun ex_oracle (rnew 2 7 false) ex_ops)) = 98
+  /\ length (concat (rrun ex_oracle (rnew 2 7 false) ex_ops)) = 108
   /\ existsb (fun c => match c with CEraseChars 5 => true | _ => false end)
              (concat (rrun ex_oracle (rnew 2 7 false) ex_ops)) = true.
 Proof.
@@ -173,6 +173,6 @@ Proof.
   { split; [reflexivity|]. split; [reflexivity|]. intros f H. unfold ex_oracle in *. cbn [erasable ferase fspace] in *.
     destruct (N.eqb f 4%N); [discriminate|reflexivity]. }
   split; [|split; vm_compute; reflexivity].
-  unfold ex_ops. cbn [good_ops]. repeat split; try (vm_compute; reflexivity).
-  intros row [<-|[]]. reflexivity.
+  unfold ex_ops. cbn [good_ops]. repeat split; try (vm_compute; reflexivity);
+    intros row Hin; simpl in Hin; destruct Hin as [<-|[]]; reflexivity.
 Qed.
